@@ -441,7 +441,9 @@ def check_census(cases, raw, hist_of):
 # ------------------------------------------------------------------ cache_interface histories (harness/c07i.cpp)
 
 def canon_iface(line):
-    """the set a recorder returns is printed in std::set order by the harness, in recording order by the model"""
+    """the set a recorder returns is printed in std::set order by the harness, in recording order by the model;
+    the low-memory flag of the process_shared segment is for the judge only"""
+    line = " ".join(x for x in line.split() if x != "lowmem")
     return re.sub(r"detached ([0-9a-fe,]+)", lambda m: "detached " + ",".join(sorted(m.group(1).split(","))), " ".join(line.split()))
 
 
@@ -593,11 +595,15 @@ def iface_judge(cases, outs):
     for k, (cs, o) in enumerate(zip(cases, outs)):
         w = cs.split()
         res = o.split("|")[0].strip()
+        if "lowmem" in o.split("|")[-1].split():
+            # process_shared: the segment ran low (allocator state seen through the check_limits hook): from here on a
+            # live entry may legitimately have been evicted although no entry-count limit is configured
+            unlimited[0] = False
         if w[0] == "inew":
             frames, pages, glob, grecs = {}, {}, set(), {}
-            # configured cache.limit = 0 means "no limit on the number of entries" (a live entry is always found);
-            # absent = the back-end's default limit
-            unlimited[0] = len(w) > 2 and w[2] == "0"
+            # configured cache.limit = 0 means "no limit on the number of entries" (a live entry is always found, as long
+            # as the allocator of a process_shared segment reports no memory pressure); absent = the back-end's default limit
+            unlimited[0] = len(w) > 2 and w[2] == "0" and "lowmem" not in o.split("|")[-1].split()
         elif w[0] == "ipage":
             now, key, tmo = int(w[1]), w[2], int(w[3])
             if res.startswith("cached"):
